@@ -1407,7 +1407,7 @@ def run(chk: Check) -> None:
     for spec in [s for s in subs if s["small"]]:
         heavy = spec["kind"] in ("multi", "net") or spec["kind"].startswith("cnn")
         if quick:
-            df, dg, cap = (1, 2, 120) if heavy else (2, 4, 500)
+            df, dg, cap = (1, 2, 100) if heavy else (2, 4, 500)
         elif heavy:
             df, dg, cap = 2, 3, 1000
         else:
